@@ -290,7 +290,18 @@ Definition mon10_step (cf : lcfg) (cur : status) (s : m10) (e : lev) : m10 :=
                               && ((l_maxretries cf <? 0) || (recent <? l_maxretries cf))) R_transient_degraded s2 in
             mkM10 (a_open s3) (a_ustart s3) 0 0 0 [] false (a_stopcall s3) (a_forcecall s3) (a_shutcall s3)
                   (a_ustop s3) (a_shut s3) (a_calls s3) (a_attempts s3) (a_lastrec s3) (a_v s3)
-          else s
+          else
+            (* R8b: the recovery gives up AT ONCE (Degraded follows the Recovering write in less than MinDelay:
+               no sleep, so this is the attempt check of StartWithBackoff, not a failed nested Start) although
+               fewer than MaxRetries attempts lie inside the preceding window: an attempt older than
+               MaxRetriesWindow (+ its delay <= MaxDelay, + 40 ms for a late timer) must have been forgotten *)
+            let recent := count_after (t - (l_window cf + l_max cf + 40000)) (a_attempts s) in
+            let early :=
+              status_eqb x Degraded && status_eqb cur Recovering && (0 <=? l_maxretries cf)
+              && (recent <? l_maxretries cf)
+              && negb (a_stopcall s || a_forcecall s || a_shutcall s) && negb (a_ustart s)
+              && match a_lastrec s with Some tr => t - tr <? l_min cf | None => false end in
+            a_flag early R_transient_degraded s
       end
   | EvStRet t x =>
       let lr := match x with
@@ -298,8 +309,14 @@ Definition mon10_step (cf : lcfg) (cur : status) (s : m10) (e : lev) : m10 :=
                 | Running => a_lastrec s
                 | _ => None
                 end in
+      (* an earlier attempt of the same recovery chain whose restarted run died before its source opened
+         (it is consumed by EvOpen otherwise) was an accepted attempt all the same *)
+      let atts := match x, a_lastrec s with
+                  | Recovering, Some tr0 => tr0 :: a_attempts s
+                  | _, _ => a_attempts s
+                  end in
       mkM10 (a_open s) (a_ustart s) (a_fatal s) (a_trans s) (a_kind s) (a_hist s) (a_ended s) (a_stopcall s)
-            (a_forcecall s) (a_shutcall s) (a_ustop s) (a_shut s) (a_calls s) (a_attempts s) lr (a_v s)
+            (a_forcecall s) (a_shutcall s) (a_ustop s) (a_shut s) (a_calls s) atts lr (a_v s)
   | EvNotify _ | EvWedge | EvPhase _ => s
   end.
 
